@@ -10,6 +10,7 @@ def run_seed(sid):
     try:
         subprocess.run(['rsync','-a','--exclude','.git','/repo/',S+'/'],check=True)
         shutil.copy('/verif/known_findings.txt',V); shutil.copy('/verif/properties.jsonl',V)
+        shutil.copytree(os.environ.get('BASE','/verif/baseline'),os.path.join(V,'baseline'))
         p=subprocess.run(['patch','-p1','-s','-i',os.path.join(d,'patch.diff')],cwd=S,capture_output=True,text=True)
         if p.returncode!=0: return sid,{'error':'patch failed: '+p.stdout[-200:]}
         b=subprocess.run(['go','build','./...'],cwd=S,env=env,capture_output=True,text=True)
